@@ -137,87 +137,105 @@ def known_match(known, prop, kind, name, args):
     return None
 
 
+def decide_item(prop, kind, name, opts, tier, seed, known):
+    """Prove one contract/lemma; fall back to / complement with the bounded stand-in. Returns a dict."""
+    from pyvc import prove
+    out = {"kind": kind, "name": name, "violations": [], "problems": [], "known_hits": {}, "prints": [],
+           "obl": 0, "dis": 0, "trusted": set(), "by_backend": {}, "samples": [], "bounded": None, "item": {"kind": kind, "name": name}}
+    item = out["item"]
+    pr = None
+    my_known = [k for k in known if k.get("status") == "known" and k["property"] == prop and k["name"] == name]
+    if not opts.get("bounded_only"):
+        try:
+            pr = prove.prove_item(kind, name, tier, seed, known=my_known)
+        except prove.Demoted as d:
+            item["demoted"] = str(d)
+            out["prints"].append(f"DEMOTED {kind}={name} reason={d}")
+        except Exception as e:
+            out["problems"].append(f"prover crashed on {name}: {type(e).__name__}: {e}")
+            out["prints"].append(traceback.format_exc())
+    else:
+        item["bounded_only"] = opts.get("bounded_only")
+    proved = False
+    if pr is not None:
+        item.update(pr.summary())
+        item["status"] = "proved" if (pr.n_obligations > 0 and not pr.failed) else "undischarged"
+        out["obl"], out["dis"] = pr.n_obligations, pr.n_discharged
+        out["trusted"] = set(pr.trusted)
+        out["by_backend"] = pr.by_backend
+        out["samples"] = pr.samples[:2]
+        proved = pr.n_obligations > 0 and not pr.failed
+    need_bounded = (not proved) or tier == "thorough"
+    found_input = False
+    if need_bounded:
+        btier = "thorough" if (pr is not None and pr.failed) else tier
+        res = None
+        try:
+            res = bounded.run(kind, name, seed, btier)
+        except LookupError as e:
+            if pr is None:
+                out["problems"].append(f"no proof and no bounded domain for {name}: {e}")
+        if res is not None:
+            item["bounded"] = {"cases": res["cases"], "skipped": res["skipped"], "distinct_ok": res["distinct_ok"], "tier": btier,
+                               "label": "bounded stand-in (small-scope, native contracts on the real code); not counted as proved"}
+            out["bounded"] = res
+            if res["errors"]:
+                out["problems"].append(f"contract of {name} not evaluable natively: {res['errors'][0]}")
+            seen_clause = set()
+            for v in res["violations"]:
+                args = v["raw_args"]
+                km = known_match(known, prop, kind, name, args)
+                if km is not None:
+                    out["known_hits"][km["id"]] = km
+                    continue
+                found_input = True
+                if v["clause"] in seen_clause:
+                    continue
+                seen_clause.add(v["clause"])
+                rp = write_replay(prop, kind, name, v["clause"], v["detail"], args)
+                out["violations"].append((rp, ""))
+    if pr is not None and pr.failed and not found_input:
+        for ob in pr.failed:
+            if ob.status == "vacuous":
+                out["problems"].append(f"vacuity canary proved for {name}: {ob.label} (contradictory assumptions)")
+            elif ob.refuted or pr.source_changed:
+                rp = write_replay(prop, kind, name, ob.label, f"obligation not discharged ({ob.status}); function source differs from baseline: {pr.source_changed}",
+                                  None, ob.solver_output, ob.label)
+                out["violations"].append((rp, " no-failing-input-found"))
+            else:
+                out["problems"].append(f"obligation undecided on unchanged source ({ob.status}): {ob.label}")
+    return out
+
+
 def run_property(prop, tier, seed):
     t0 = time.time()
     loader.load()
     known = load_known()
     items = cone(prop)
-    lines = []
-    violations = []   # (replay path, suffix)
-    known_hits = {}
-    problems = []
-    ev_items = []
-    total_obl = total_dis = 0
-    bounded_total = bounded_distinct = 0
-    samples = []
-    trusted = set()
-    by_backend = {}
-    from pyvc import prove  # late import: engine
-    for kind, name, opts in items:
-        item = {"kind": kind, "name": name}
-        pr = None
-        if not opts.get("bounded_only"):
-            try:
-                pr = prove.prove_item(kind, name, tier, seed, known=[k for k in known if k.get("status") == "known" and k["property"] == prop and k["name"] == name])
-            except prove.Demoted as d:
-                item["demoted"] = str(d)
-                print(f"DEMOTED {kind}={name} reason={d}")
-            except Exception as e:
-                problems.append(f"prover crashed on {name}: {type(e).__name__}: {e}")
-                traceback.print_exc()
-        need_bounded = True
-        if pr is not None:
-            item.update(pr.summary())
-            total_obl += pr.n_obligations
-            total_dis += pr.n_discharged
-            trusted.update(pr.trusted)
-            for b, (n, secs) in pr.by_backend.items():
-                a = by_backend.setdefault(b, [0, 0.0])
-                a[0] += n
-                a[1] += secs
-            samples.extend(pr.samples[:2])
-            if pr.n_obligations > 0 and pr.n_discharged == pr.n_obligations and tier == "quick":
-                need_bounded = False
-            for ob in pr.failed:
-                # undischarged obligation: try to find a concrete failing input with the executable contract
-                res = bounded.run(kind, name, seed, "thorough")
-                hit = [v for v in res["violations"]]
-                if hit:
-                    break
-                if ob.refuted or pr.source_changed:
-                    rp = write_replay(prop, kind, name, ob.label, "obligation not discharged", None, ob.solver_output, ob.label)
-                    violations.append((rp, " no-failing-input-found"))
-                else:
-                    problems.append(f"obligation {ob.label} of {name} undecided on unchanged source: {ob.status}")
-            if pr.failed:
-                need_bounded = True
-        if need_bounded:
-            try:
-                res = bounded.run(kind, name, seed, tier)
-            except LookupError as e:
-                if pr is None:
-                    problems.append(f"no proof and no bounded domain for {name}: {e}")
-                res = None
-            if res is not None:
-                item["bounded"] = {"cases": res["cases"], "skipped": res["skipped"], "distinct_ok": res["distinct_ok"],
-                                   "label": "bounded stand-in (small-scope, native contracts); not counted as proved"}
-                bounded_total += res["cases"]
-                bounded_distinct += res["distinct_ok"]
-                if res["errors"]:
-                    problems.append(f"contract of {name} not evaluable: {res['errors'][0]}")
-                seen_clause = set()
-                for v in res["violations"]:
-                    args = v["raw_args"]
-                    km = known_match(known, prop, kind, name, args)
-                    if km is not None:
-                        known_hits[km["id"]] = km
-                        continue
-                    if v["clause"] in seen_clause:
-                        continue
-                    seen_clause.add(v["clause"])
-                    rp = write_replay(prop, kind, name, v["clause"], v["detail"], args)
-                    violations.append((rp, ""))
-        ev_items.append(item)
+    from concurrent.futures import ThreadPoolExecutor
+    with ThreadPoolExecutor(max_workers=int(os.environ.get("PYVC_ITEM_WORKERS", "4"))) as ex:
+        outs = list(ex.map(lambda it: decide_item(prop, it[0], it[1], it[2], tier, seed, known), items))
+    violations, problems, known_hits = [], [], {}
+    total_obl = total_dis = bounded_total = bounded_distinct = 0
+    samples, trusted, by_backend, ev_items = [], set(), {}, []
+    for o in outs:
+        for p in o["prints"]:
+            print(p)
+        violations += o["violations"]
+        problems += o["problems"]
+        known_hits.update(o["known_hits"])
+        total_obl += o["obl"]
+        total_dis += o["dis"]
+        trusted |= o["trusted"]
+        samples += o["samples"]
+        for b, (n, secs) in o["by_backend"].items():
+            a = by_backend.setdefault(b, [0, 0.0])
+            a[0] += n
+            a[1] += secs
+        if o["bounded"]:
+            bounded_total += o["bounded"]["cases"]
+            bounded_distinct += o["bounded"]["distinct_ok"]
+        ev_items.append(o["item"])
     # known findings: replay each witness natively; print KNOWN-FINDING only if it still fails
     for k in known:
         if k.get("status") == "known" and k["property"] == prop:
@@ -233,35 +251,38 @@ def run_property(prop, tier, seed):
     for k in known_hits.values():
         print(f"KNOWN-FINDING: property={prop} {k['what_fails']}")
     wall = time.time() - t0
-    proved_all = total_obl > 0 and total_dis == total_obl and not problems
-    level = "proof" if total_obl > 0 else "other"
+    n_proved = sum(1 for it in ev_items if it.get("status") == "proved")
+    level = "proof" if (total_obl > 0 and total_dis == total_obl) else "other"
     cov = {
         "obligations": total_obl,
         "discharged": total_dis,
         "checker_cmd": f"./check {prop} --tier {tier}",
-        "trusted_base": sorted(trusted),
-        "by_backend": {b: {"obligations": n, "solver_s": round(s, 3)} for b, (n, s) in by_backend.items()},
+        "trusted_base": sorted(trusted) + GLOBAL_TRUSTED,
+        "by_backend": {b: {"obligations_decided": n, "solver_s": round(s_, 3)} for b, (n, s_) in by_backend.items()},
         "functions_under_contract": ev_items,
+        "items_total": len(ev_items),
+        "items_proved": n_proved,
+        "items_bounded_only": sum(1 for it in ev_items if it.get("status") != "proved"),
         "bounded_cases": bounded_total,
         "bounded_distinct_ok": bounded_distinct,
         "samples": samples[:8] or [f"bounded: {bounded_total} native contract evaluations"],
         "known_findings": [k["id"] for k in known_hits.values()],
         "problems": problems,
-        "explanation": ("obligations generated from the current /repo source by pyvc and discharged by SMT; "
-                        "bounded_* counts are small-scope native contract evaluations (stand-ins / monitor), not proofs"),
+        "explanation": ("obligations are generated by pyvc from the current /repo source (ast) against the sidecar contracts and discharged "
+                        "by z3 4.8.12 / z3 5.1.0 / cvc5 1.0.3 (first decisive answer); items listed with a 'bounded' entry and no "
+                        "'proved' status are decided only by the small-scope native contract evaluation (bounded stand-in), which is "
+                        "never counted in obligations/discharged"),
         "evaluations": max(bounded_total, 1),
-        "distinct_nontrivial": max(bounded_distinct, 2) if bounded_total else 2,
+        "distinct_nontrivial": max(bounded_distinct, 2),
         "rule": "bounded stand-in: distinct argument tuples (converter shape x strings x flags) whose precondition held and whose contract evaluated to true",
     }
-    if level == "proof" and total_dis == 0:
-        level = "other"
     ev = {
         "property_id": prop,
         "tier": tier,
         "seed": seed,
         "level": level,
         "coverage": cov,
-        "assumptions": sorted(trusted),
+        "assumptions": sorted(trusted) + GLOBAL_TRUSTED,
         "wall_s": round(wall, 2),
         "violations": len(violations),
     }
@@ -269,7 +290,7 @@ def run_property(prop, tier, seed):
     json.dump(ev, open(os.path.join(EVID, f"{prop}.json"), "w"), indent=1, ensure_ascii=False, default=str)
     for rp, suffix in violations:
         print(f"VIOLATION property={prop} replay={rp}{suffix}")
-    print(f"{prop}: items={len(items)} obligations={total_obl} discharged={total_dis} bounded_cases={bounded_total} "
+    print(f"{prop}: items={len(items)} proved={n_proved} obligations={total_obl} discharged={total_dis} bounded_cases={bounded_total} "
           f"violations={len(violations)} known={len(known_hits)} problems={len(problems)} wall={wall:.1f}s")
     for p in problems:
         print("PROBLEM:", p)
@@ -281,6 +302,14 @@ def run_property(prop, tier, seed):
         print("no obligations and no bounded checks: vacuous")
         return 3
     return 0
+
+
+GLOBAL_TRUSTED = [
+    "pyvc itself (ast -> SMT VC generator) and its reading of Python semantics: static dispatch, no monkey-patching, values have their annotated types, single thread, no asynchronous exceptions",
+    "Python str built-ins behave as the SMT-LIB string theory definitions in pyvc/smt.py STR_SIG_S (partition, startswith, +, len, slicing, in); each Layer-U string axiom is proved against those definitions by `./check lemmas`",
+    "solvers: z3 4.8.12, z3 5.1.0, cvc5 1.0.3 / 1.4.0",
+    "pydantic: BaseModel construction runs validators and copies list fields; frozen config enforced",
+]
 
 
 def main(argv=None):
